@@ -806,9 +806,14 @@ def _arg_combine(data, axis, argfunc, keepdims=False):
 
 def arg_chunk(func, argfunc, x, axis, offset_info):
     arg_axis = None if len(axis) == x.ndim or x.ndim == 1 else axis[0]
-    vals = func(x, axis=arg_axis, keepdims=True)
-    arg = argfunc(x, axis=arg_axis, keepdims=True)
-    if x.ndim > 0:
+    vals = _empty_partial(x, axis) if x.size == 0 else None
+    if vals is not None:
+        # A block without elements along a reduced axis has no candidate
+        arg = np.empty_like(vals, dtype=np.intp)
+    else:
+        vals = func(x, axis=arg_axis, keepdims=True)
+        arg = argfunc(x, axis=arg_axis, keepdims=True)
+    if x.ndim > 0 and arg.size > 0:
         if arg_axis is None:
             offset, total_shape = offset_info
             ind = np.unravel_index(arg.ravel()[0], x.shape)
@@ -838,6 +843,11 @@ def arg_chunk(func, argfunc, x, axis, offset_info):
 
 
 def arg_combine(argfunc, data, axis=None, **kwargs):
+    if not isinstance(data, dict) and data.size == 0:
+        # only partial results of empty blocks
+        empty = _empty_partial(data, axis)
+        if empty is not None:
+            return empty
     arg, vals = _arg_combine(data, axis, argfunc, keepdims=True)
 
     try:
